@@ -4,7 +4,7 @@ RGBA x accumulated alpha, in font space) and a structural tag. Never imports nan
 from fontTools.ttLib.tables import otTables as ot
 
 from . import aff, paths
-from .colr_eval import ColrPicture, PF, premul
+from .colr_eval import ColrPicture, PF, premul, static_format
 
 
 class Leaf:
@@ -45,7 +45,7 @@ def colr_leaves(font, glyph, fg):
         return out
 
     def walk(p, T, alpha):
-        f = p.Format
+        f = static_format(p)
         if f == PF.PaintColrLayers:
             ll = colr.table.LayerList.Paint
             for ch in ll[p.FirstLayerIndex: p.FirstLayerIndex + p.NumLayers]:
@@ -59,7 +59,7 @@ def colr_leaves(font, glyph, fg):
             walk(p.Paint, aff.mul(T, m), alpha)
             return
         if f == PF.PaintComposite:
-            if int(p.CompositeMode) == ot.CompositeMode.SRC_IN and p.BackdropPaint.Format == PF.PaintSolid:
+            if int(p.CompositeMode) == ot.CompositeMode.SRC_IN and static_format(p.BackdropPaint) == PF.PaintSolid:
                 a = pic.color(p.BackdropPaint.PaletteIndex, p.BackdropPaint.Alpha)[3]
                 walk(p.SourcePaint, T, alpha * a)
                 return
@@ -73,7 +73,7 @@ def colr_leaves(font, glyph, fg):
                     return (0.0, 0.0, 0.0, 0.0)
                 return (c[0] / c[3], c[1] / c[3], c[2] / c[3], c[3] * alpha)
 
-            tag = {PF.PaintSolid: "solid", PF.PaintLinearGradient: "linear", PF.PaintRadialGradient: "radial"}.get(_strip(pic, fill).Format, "other")
+            tag = {PF.PaintSolid: "solid", PF.PaintLinearGradient: "linear", PF.PaintRadialGradient: "radial"}.get(static_format(_strip(pic, fill)), "other")
             out.append(Leaf(pic.outline(p.Glyph), T, fill_at, tag, p.Glyph))
             return
         raise Unsupported(f"paint format {f}")
